@@ -681,8 +681,27 @@ def c02(tr, st, c):
     return out
 
 
+def c02_same_capacity(tr, st, c):
+    """the capacity (share lost, overproduction factor) that bounds the orders' inventory goal is the one production was
+    decided with in the same step: nothing between the two modules changes it"""
+    out = []
+    pp, po = st["phases"].get("production"), st["phases"].get("orders")
+    if not pp or not po or pp.get("pre") is None or po.get("pre") is None:
+        return out
+    a, b = pp["pre"]["econ"], po["pre"]["econ"]
+    for key, what in (("deltaTot", "share of capacity lost"), ("alpha", "overproduction factor")):
+        va, vb = a.get(key), b.get(key)
+        if va is None or vb is None:
+            continue
+        if not np.array_equal(np.asarray(va, dtype=float), np.asarray(vb, dtype=float), equal_nan=True):
+            i = int(np.argmax(np.abs(np.asarray(va, dtype=float) - np.asarray(vb, dtype=float))))
+            out.append(viol("C02", st["t"], f"the {what} changed between the production and the order modules of the same step",
+                            cell=i, at_production=float(np.asarray(va).ravel()[i]), at_orders=float(np.asarray(vb).ravel()[i])))
+    return out
+
+
 def c02_all(tr, st, c):
-    return c02(tr, st, c) + phase_sequence(tr, st, c, "C02")
+    return c02(tr, st, c) + phase_sequence(tr, st, c, "C02") + c02_same_capacity(tr, st, c)
 
 
 def c14_all(tr, st, c):
